@@ -3,9 +3,10 @@ use crate::core::Prop;
 
 pub mod c10;
 pub mod prog;
+pub mod c20;
 
 pub fn all() -> Vec<&'static dyn Prop> {
-    vec![&prog::C01, &prog::C02, &prog::C03, &prog::C08, &c10::C10]
+    vec![&prog::C01, &prog::C02, &prog::C03, &prog::C08, &c10::C10, &c20::C20]
 }
 
 pub fn find(id: &str) -> Option<&'static dyn Prop> {
